@@ -67,6 +67,7 @@ class Tracer:
         self.deque_counter = 0
         self.depth = 0
         self.pool_seq = 0
+        self.cop_dec = 0
         self._orig = {}
         self._wfile = None
         self._wpid = None
@@ -227,6 +228,9 @@ class Tracer:
         wrap_sample(CouplingMarkovChain, "simulate_one_path_with_coupling")
         wrap_sample(CouplingProcessLevyCopula, "simulate_one_path")
         wrap_sample(CouplingProcessLevyCopula, "simulate_one_path_with_coupling")
+        # series-representation process (wave 5): a Process of its own, not a LevyProcess
+        from rpylib.process.levycopulaseries import LevyCopula2dSeriesRepresentation
+        wrap_sample(LevyCopula2dSeriesRepresentation, "simulate_one_path")
 
         def wrap_pre(cls):
             orig = cls.pre_computation
@@ -269,6 +273,36 @@ class Tracer:
         _as_attribute(coupling_state, CouplingSimulation, "coupling_state")
         CouplingSimulation.probability_to_right_jump = staticmethod(probability_to_right_jump)
         CouplingSimulation.coupling_state = coupling_state
+
+        # ---- copula coupling decisions (wave 5): `u <= probability` inside CouplingLevyCopulaSimulation.__coupling_state.
+        # The uniform source of the coupling process (`_uniform`, a source of randomness) is replaced by a proxy that hands
+        # out the very same numpy variates as an ndarray subclass logging the first comparison made with them.
+        from rpylib.process.coupling.couplinglevycopula import CouplingLevyCopulaSimulation
+        mangled = "_CouplingLevyCopulaSimulation__coupling_state"
+        orig_ccs = getattr(CouplingLevyCopulaSimulation, mangled)
+        self._orig[("CouplingLevyCopulaSimulation", mangled)] = orig_ccs
+
+        def copula_coupling_state(self_, increment, axis_coordinates=None):
+            if not tr.active:
+                return orig_ccs(self_, increment, axis_coordinates)
+            tr.log(e="dec_begin")
+            tr.cop_dec += 1
+            try:
+                return orig_ccs(self_, increment, axis_coordinates)
+            finally:
+                tr.cop_dec -= 1
+                tr.log(e="dec_end")
+        _as_attribute(copula_coupling_state, CouplingLevyCopulaSimulation, mangled)
+        setattr(CouplingLevyCopulaSimulation, mangled, copula_coupling_state)
+
+        orig_cplc_init = CouplingProcessLevyCopula.__init__
+        self._orig[("CouplingProcessLevyCopula", "__init__")] = orig_cplc_init
+
+        def cplc_init(self_, *a, **kw):
+            orig_cplc_init(self_, *a, **kw)
+            self_._uniform = UniformProbe(self_._uniform)
+        _as_attribute(cplc_init, CouplingProcessLevyCopula, "__init__")
+        CouplingProcessLevyCopula.__init__ = cplc_init
 
         from rpylib.montecarlo.statistic.statistic import MCStatistics, MLMCStatistics
         orig_add = MCStatistics.add
@@ -342,6 +376,60 @@ class Probe:
 
     def __float__(self):
         return float(self.p)
+
+
+class UseArray(np.ndarray):
+    """the variates returned by one `sample()` call made inside a copula coupling decision; the first comparison made with
+    them is logged as the `use` of the variate (the decision walks through cumulated probabilities: one multi-way decision
+    compares the same u several times -- that is one use)"""
+
+    _c08_used = False
+
+    def _use(self):
+        if not self._c08_used:
+            self._c08_used = True
+            TR.log(e="use", val=float(np.asarray(self).ravel()[0]))
+        return np.asarray(self)
+
+    def __le__(self, o):
+        return self._use() <= o
+
+    def __lt__(self, o):
+        return self._use() < o
+
+    def __ge__(self, o):
+        return self._use() >= o
+
+    def __gt__(self, o):
+        return self._use() > o
+
+
+class UniformProbe:
+    """stands for CouplingProcessLevyCopula._uniform: same generator calls, same values; inside a coupling decision the
+    variates come back as UseArray"""
+
+    def __init__(self, real):
+        self.real = real
+
+    def sample(self, size=1):
+        res = self.real.sample(size=size) if size != 1 else self.real.sample()
+        if TR.active and TR.cop_dec > 0:
+            return np.asarray(res).view(UseArray)
+        return res
+
+    def reset_sampling_cost(self):
+        return self.real.reset_sampling_cost()
+
+    def cost(self):
+        return self.real.cost()
+
+    @property
+    def sampling_cost(self):
+        return self.real.sampling_cost
+
+    @sampling_cost.setter
+    def sampling_cost(self, v):
+        self.real.sampling_cost = v
 
 
 class TaskWrap:
